@@ -910,8 +910,11 @@ def generic_map(caller, callee):
     return {g: cm.get(a, a) for g, a in zip(gens, fa)}
 
 
-def walk_inline(body, facts, **kw):
-    return InlineWalker(body, facts, **kw).run()
+def walk_inline(body, facts, gen_map=None, **kw):
+    w = InlineWalker(body, facts, **kw)
+    if gen_map:
+        w.gen_map = dict(gen_map)       # const generic arguments fixed for this analysis (e.g. the table flags off)
+    return w.run()
 
 
 def norm_ok(t, depth=0):
